@@ -14,10 +14,28 @@ from spec_classes.utils.mutation import (
     mutate_attr,
     mutate_value,
     prepare_attr_value,
+    protect_via_deepcopy,
     thawed,
 )
 
 from .base import AttrMethodDescriptor
+
+
+def _protect_if_unchanged(attr_spec: Attr, instance, value, inplace: bool):
+    """
+    If an update/transform left the existing value of an attribute untouched,
+    the value still belongs to `instance`; and so it must be copied before it
+    is stored on a copy of `instance`.
+    """
+    if (
+        inplace
+        or attr_spec.do_not_copy
+        or instance.__spec_class__.do_not_copy
+        or value is MISSING
+        or value is not instance.__dict__.get(attr_spec.name, MISSING)
+    ):
+        return value
+    return protect_via_deepcopy(value)
 
 
 class WithAttrMethod(AttrMethodDescriptor):
@@ -123,12 +141,17 @@ class UpdateAttrMethod(AttrMethodDescriptor):
         return WithAttrMethod.with_attr(
             attr_spec,
             self,
-            _new_value=mutate_value(
-                old_value=Proxy(lambda: getattr(self, attr_spec.name, MISSING)),
-                new_value=_new_value,
-                constructor=attr_spec.constructor,
-                expected_type=attr_spec.type,
-                attrs=attrs,
+            _new_value=_protect_if_unchanged(
+                attr_spec,
+                self,
+                mutate_value(
+                    old_value=Proxy(lambda: getattr(self, attr_spec.name, MISSING)),
+                    new_value=_new_value,
+                    constructor=attr_spec.constructor,
+                    expected_type=attr_spec.type,
+                    attrs=attrs,
+                ),
+                _inplace,
             ),
             _inplace=_inplace,
         )
@@ -205,12 +228,17 @@ class TransformAttrMethod(AttrMethodDescriptor):
         return WithAttrMethod.with_attr(
             attr_spec,
             self,
-            _new_value=mutate_value(
-                old_value=Proxy(lambda: getattr(self, attr_spec.name, MISSING)),
-                transform=_transform,
-                constructor=attr_spec.constructor,
-                expected_type=attr_spec.type,
-                attr_transforms=attr_transforms,
+            _new_value=_protect_if_unchanged(
+                attr_spec,
+                self,
+                mutate_value(
+                    old_value=Proxy(lambda: getattr(self, attr_spec.name, MISSING)),
+                    transform=_transform,
+                    constructor=attr_spec.constructor,
+                    expected_type=attr_spec.type,
+                    attr_transforms=attr_transforms,
+                ),
+                _inplace,
             ),
             _inplace=_inplace,
         )
